@@ -115,3 +115,13 @@ PENDING = {
                 profiles=['rewards'], keys=HUBKEYS + ['m ', 'bank ', 'pend', 'rw.', 'dp.'],
                 ops=[r'^hub \S+ updateglobal', r'^reg \S+ remove', r'^accrue'], assumes=E_ENV + ['swap and oracle stubs of PROTOCOL.md section 4 (E7)']),
 }
+
+
+# a pending property becomes claimed once its theorem names are pinned in lib/theorems.json
+# (written by tools/integrate.py when the proof files are added to _CoqProject)
+import json as _json, os as _os
+_tj = _os.path.join(_os.path.dirname(_os.path.abspath(__file__)), 'theorems.json')
+if _os.path.exists(_tj):
+    for _pid, _thms in _json.load(open(_tj)).items():
+        if _pid in PENDING:
+            PROPS[_pid] = dict(PENDING.pop(_pid), theorems=_thms)
